@@ -8,9 +8,11 @@ EXPLANATION = (
     "the WHOLE population it popped (same object, no slicing/adapters) to Evaluate::evaluate exactly once, obtained "
     "through holding::<Evaluator<P, I>> with its own identifier I; on the Ok continuation it adds exactly "
     "`population.len()` of that same vector to Evaluations at exactly one site outside any loop, and pushes that same "
-    "vector back on every Ok path; (R2) Sequential and Parallel visit `individuals` through whitelisted, "
-    "element-preserving iteration only (no skip/filter/take/step_by/chunks_exact/rev...), call evaluate_with once per "
-    "element with a closure that calls the objective function exactly once; (R3) every call site of "
+    "vector back on every Ok path; (R2) K6 on every Evaluate implementation over slices of 0..4 individuals (evaluated / "
+    "unevaluated mixed, distinct opaque solutions) with the objective function an oracle recording its calls: afterwards "
+    "the same individuals in the same order carry f(own solution) and the objective was called exactly once per "
+    "individual (rayon's par_iter_mut/for_each modelled as the sequential visit; chunking / skipping / filtering "
+    "adapters are modelled exactly by the collection model); (R3) every call site of "
     "Evaluate::evaluate in the crate is followed on its Ok continuation by an increment of Evaluations equal to the "
     "length of the slice it evaluated (len() of the same vector, or the constant 1 for a one-element slice); "
     "(R4) require() demands Populations<P> and Evaluator<P, I> for the same I that execute uses; optimize() registers "
